@@ -26,7 +26,10 @@ Definition fset (i : N) (c : bytes) (fs : files) : files :=
 (** What the reader of a list does in one refresh. *)
 Inductive outcome :=
   | OOpenErr                                  (* connection error, status <> 200, unreadable / unsafe path *)
-  | OBody (data : bytes) (read_err : bool).   (* body bytes delivered, then EOF or an error *)
+  | OBody (data : bytes) (read_err : bool)    (* body bytes delivered, then EOF or an error *)
+  | ORenameFail (data : bytes).               (* complete body, but [CloseReplace] of the pending
+                                                 file fails.  Not among the property's failures and
+                                                 not produced by the harness: model of the code only *)
 
 Record engine := { e_block : list (N * bytes); e_allow : list (N * bytes) }.
 
@@ -58,6 +61,16 @@ Section Refresh.
             else ({| u_id := f_id l; u_updated := true; u_err := false;
                      u_count := p_count st; u_sum := p_sum st |},
                   fset (f_id l) (output st) fs)
+        end
+    | ORenameFail data =>
+        (* [finalizeUpdate] returns the error before filling in the working
+           copy, but [updateIntl]'s result [ok] stays true *)
+        match parse crc data false with
+        | (_, Some _) => (failed, fs)
+        | (st, None) =>
+            if p_sum st =? f_sum l then (same, fs)
+            else ({| u_id := f_id l; u_updated := true; u_err := true;
+                     u_count := 0; u_sum := f_sum l |}, fs)
         end
     end.
 
